@@ -32,7 +32,7 @@ fn key_of(p: &Pos) -> u64 {
     gen::rep_key(p)
 }
 
-fn sibling(ctx: &mut Ctx, s: &Step, h: u64, sib: &Pos, kind: &str, distinct_ep: bool) -> Result<(), Violation> {
+fn sibling(ctx: &mut Ctx, s: &Step, hs: &[(u64, &'static str)], sib: &Pos, kind: &str, distinct_ep: bool) -> Result<(), Violation> {
     // positions the library does not accept are not part of the quantifier
     let b = match bridge::board_via_builder(sib) {
         Ok(b) => b,
@@ -50,15 +50,14 @@ fn sibling(ctx: &mut Ctx, s: &Step, h: u64, sib: &Pos, kind: &str, distinct_ep: 
         ctx.nontrivial(fp(&(s.pos, sib)));
     }
     note(ctx, b.get_hash(), sib);
-    if b.get_hash() == h {
-        ctx.fail(
-            &format!("hash:collision-{}", kind),
-            format!("positions differing in one component ({}) have the same hash {:#018x}", kind, h),
-            s.case_with(json!({"sibling": sib.fen(), "component": kind})),
-        )?;
-    }
-    if b == *s.board {
-        ctx.fail(&format!("hash:eq-{}", kind), format!("positions differing in one component ({}) compare equal", kind), s.case_with(json!({"sibling": sib.fen(), "component": kind})))?;
+    for (h, how) in hs {
+        if b.get_hash() == *h {
+            ctx.fail(
+                &format!("hash:collision-{}", kind),
+                format!("positions differing in one component ({}) have the same hash {:#018x} (this position obtained through {})", kind, h, how),
+                s.case_with(json!({"sibling": sib.fen(), "component": kind, "obtained_through": how})),
+            )?;
+        }
     }
     Ok(())
 }
@@ -80,6 +79,27 @@ pub fn check_step(ctx: &mut Ctx, s: &Step) -> Result<(), Violation> {
         return Ok(());
     }
     ctx.class("position:siblings-generated");
+    // the hash of this position as every construction path reports it
+    let mut hs: Vec<(u64, &'static str)> = vec![(h, "the history (make_move_new / make_move alternately)")];
+    if let Some((_, pb, m)) = s.prev {
+        let a = pb.make_move_new(bridge::mv(m)).get_hash();
+        let b2 = bridge::make_in_place(pb, bridge::mv(m), s.board).get_hash();
+        if !hs.iter().any(|x| x.0 == a) {
+            hs.push((a, "make_move_new"));
+        }
+        if !hs.iter().any(|x| x.0 == b2) {
+            hs.push((b2, "make_move (in place)"));
+        }
+    }
+    if let Ok(f) = bridge::board_via_fen(p) {
+        if !hs.iter().any(|x| x.0 == f.get_hash()) {
+            hs.push((f.get_hash(), "Board::from_str"));
+        }
+    }
+    if hs.len() > 1 {
+        ctx.class("position:construction-paths-disagree-on-hash(C08's business; all are compared)");
+    }
+    let hs = &hs[..];
     let mut base = p.clone();
     // the en-passant target is part of the position only when the library records it
     if !p.ep_adjacent_pawn() {
@@ -100,7 +120,7 @@ pub fn check_step(ctx: &mut Ctx, s: &Step) -> Result<(), Violation> {
         fix_rights(&mut x);
         fix_ep(&mut x);
         if x.castle == base.castle && x.ep == base.ep {
-            sibling(ctx, s, h, &x, "sibling:man-removed", false)?;
+            sibling(ctx, s, hs, &x, "sibling:man-removed", false)?;
         }
         // retyped
         for nk in [Kind::P, Kind::N, Kind::B, Kind::R, Kind::Q] {
@@ -112,7 +132,7 @@ pub fn check_step(ctx: &mut Ctx, s: &Step) -> Result<(), Violation> {
             fix_rights(&mut x);
             fix_ep(&mut x);
             if x.castle == base.castle && x.ep == base.ep {
-                sibling(ctx, s, h, &x, "sibling:man-retyped", false)?;
+                sibling(ctx, s, hs, &x, "sibling:man-retyped", false)?;
             }
         }
         // recoloured
@@ -121,7 +141,7 @@ pub fn check_step(ctx: &mut Ctx, s: &Step) -> Result<(), Violation> {
         fix_rights(&mut x);
         fix_ep(&mut x);
         if x.castle == base.castle && x.ep == base.ep {
-            sibling(ctx, s, h, &x, "sibling:man-recoloured", false)?;
+            sibling(ctx, s, hs, &x, "sibling:man-recoloured", false)?;
         }
         // moved to two empty squares chosen by the position fingerprint
         if !empties.is_empty() {
@@ -136,7 +156,39 @@ pub fn check_step(ctx: &mut Ctx, s: &Step) -> Result<(), Violation> {
                 fix_rights(&mut x);
                 fix_ep(&mut x);
                 if x.castle == base.castle && x.ep == base.ep {
-                    sibling(ctx, s, h, &x, "sibling:man-moved", false)?;
+                    sibling(ctx, s, hs, &x, "sibling:man-moved", false)?;
+                }
+            }
+        }
+    }
+    // a man added: on squares chosen by the fingerprint and on the castling squares of both back ranks
+    {
+        let mut squares: Vec<Sq> = vec![];
+        if !empties.is_empty() {
+            for j in 0..3u64 {
+                squares.push(empties[((pf >> (20 + 6 * j)) % empties.len() as u64) as usize]);
+            }
+        }
+        for q in [0u8, 3, 5, 7, 56, 59, 61, 63] {
+            if p.at(q).is_none() {
+                squares.push(q);
+            }
+        }
+        squares.sort();
+        squares.dedup();
+        for (j, q) in squares.into_iter().enumerate() {
+            for (c, k) in [(Col::W, Kind::R), (Col::B, Kind::R), (if pf.rotate_right(40 + j as u32) & 1 == 0 { Col::W } else { Col::B }, [Kind::N, Kind::B, Kind::Q, Kind::P][(pf.rotate_right(44 + 2 * j as u32) % 4) as usize])] {
+                if k == Kind::P && (rank_of(q) == 0 || rank_of(q) == 7) {
+                    continue;
+                }
+                if base.men(c) >= 16 {
+                    continue;
+                }
+                let mut x = base.clone();
+                x.board[q as usize] = Some((c, k));
+                fix_ep(&mut x);
+                if x.ep == base.ep {
+                    sibling(ctx, s, hs, &x, "sibling:man-added", false)?;
                 }
             }
         }
@@ -145,7 +197,7 @@ pub fn check_step(ctx: &mut Ctx, s: &Step) -> Result<(), Violation> {
     if base.ep.is_none() {
         let mut x = base.clone();
         x.stm = p.stm.other();
-        sibling(ctx, s, h, &x, "sibling:side-to-move", false)?;
+        sibling(ctx, s, hs, &x, "sibling:side-to-move", false)?;
         if let Some(nb) = s.board.null_move() {
             if nb.get_hash() == h {
                 ctx.fail("hash:collision-sibling:side-to-move", "null_move() result has the same hash as the original".into(), s.case())?;
@@ -358,7 +410,7 @@ pub fn run(cfg: &Cfg) -> i32 {
     engine::finish(
         report,
         EvidenceSpec {
-            rule: "cases = every position on golden and generated histories, and every placement of two further men on a few K v K bases (dense families in which positions differ pairwise in up to four piece-square keys), goes into a global map hash -> position identity; one position in four additionally gets all its single-component siblings built through BoardBuilder: each non-king man removed / retyped / recoloured / moved to two empty squares, side to move flipped (also via null_move), every proper subset of the castling rights held, en-passant state absent vs present on each possible file. evaluations = positions + siblings compared. Non-trivial = a sibling differing in castling rights, en-passant file or side to move, or a global map of >= 100000 distinct positions; distinct = fingerprints of (position, sibling).".into(),
+            rule: "cases = every position on golden and generated histories, and every placement of two further men on a few K v K bases (dense families in which positions differ pairwise in up to four piece-square keys), goes into a global map hash -> position identity; one position in four additionally gets all its single-component siblings built through BoardBuilder: each non-king man removed / retyped / recoloured / moved to two empty squares, a man added on a few empty squares and on the castling squares of both back ranks, side to move flipped (also via null_move), every proper subset of the castling rights held, en-passant state absent vs present on each possible file. the position's own hash is taken through every construction path (history, make_move_new, in-place make_move, FEN) and each of these values is compared with every sibling. evaluations = positions + siblings compared. Non-trivial = a sibling differing in castling rights, en-passant file or side to move, or a global map of >= 100000 distinct positions; distinct = fingerprints of (position, sibling).".into(),
             assumptions: vec![
                 "the global map holds at most 6.4e7 distinct positions, so the expected number of chance collisions is N^2/2^65 <= 1.1e-4; any collision is reported (false-alarm probability per run about 1e-4)".into(),
                 "says nothing about adversarially constructed collisions".into(),
